@@ -13,15 +13,8 @@ import (
 	"crypto/ecdsa"
 	"encoding/hex"
 	"encoding/json"
-	"go/ast"
-	"go/parser"
-	"go/token"
 	"log/slog"
 	"math/big"
-	"os"
-	"path/filepath"
-	"strconv"
-	"strings"
 	"sync"
 	"sync/atomic"
 	"testing"
@@ -265,90 +258,6 @@ func c20Run(t *testing.T, in c20In, rng *vrng) (obs c20Obs) {
 	obs.IdentityOK = identityOK.Load()
 	obs.UnknownPeer = int(slog_.unknown.Load())
 	return obs
-}
-
-// c20Timers lists the real-time bounds (time.After, NewTimer, AfterFunc, Tick, NewTicker,
-// context.WithTimeout) written in the package's non-test sources, in milliseconds (0: not a
-// literal).  "However slowly the responder completes its side" cannot be sampled for every
-// delay; what can be done is to hold the responder past every bound the source mentions, so that
-// an expiry path, if there is one, is the path taken.  The unchanged tree has none.
-func c20Timers() []int {
-	var out []int
-	units := map[string]int{"Millisecond": 1, "Second": 1000, "Minute": 60000, "Hour": 3600000}
-	var eval func(e ast.Expr) int
-	eval = func(e ast.Expr) int {
-		switch x := e.(type) {
-		case *ast.ParenExpr:
-			return eval(x.X)
-		case *ast.BasicLit:
-			n, err := strconv.Atoi(x.Value)
-			if err != nil {
-				return 0
-			}
-			return -n // bare number: a factor
-		case *ast.SelectorExpr:
-			if id, ok := x.X.(*ast.Ident); ok && id.Name == "time" {
-				return units[x.Sel.Name]
-			}
-		case *ast.BinaryExpr:
-			if x.Op == token.MUL {
-				a, b := eval(x.X), eval(x.Y)
-				if a < 0 && b > 0 {
-					return -a * b
-				}
-				if b < 0 && a > 0 {
-					return a * -b
-				}
-			}
-		}
-		return 0
-	}
-	files, _ := filepath.Glob("*.go")
-	more, _ := filepath.Glob("internal/*/*.go")
-	for _, f := range append(files, more...) {
-		if strings.HasSuffix(f, "_test.go") {
-			continue
-		}
-		src, err := os.ReadFile(f)
-		if err != nil {
-			continue
-		}
-		af, err := parser.ParseFile(token.NewFileSet(), f, src, 0)
-		if err != nil {
-			continue
-		}
-		ast.Inspect(af, func(n ast.Node) bool {
-			call, ok := n.(*ast.CallExpr)
-			if !ok {
-				return true
-			}
-			sel, ok := call.Fun.(*ast.SelectorExpr)
-			if !ok {
-				return true
-			}
-			pkg, _ := sel.X.(*ast.Ident)
-			if pkg == nil {
-				return true
-			}
-			var arg ast.Expr
-			switch {
-			case pkg.Name == "time" && (sel.Sel.Name == "After" || sel.Sel.Name == "NewTimer" || sel.Sel.Name == "AfterFunc" ||
-				sel.Sel.Name == "Tick" || sel.Sel.Name == "NewTicker") && len(call.Args) >= 1:
-				arg = call.Args[0]
-			case pkg.Name == "context" && sel.Sel.Name == "WithTimeout" && len(call.Args) == 2:
-				arg = call.Args[1]
-			default:
-				return true
-			}
-			d := eval(arg)
-			if d < 0 {
-				d = 0
-			}
-			out = append(out, d)
-			return true
-		})
-	}
-	return out
 }
 
 type c20Host struct {
